@@ -10,7 +10,7 @@ TAGS = [None, 't1', 't2']
 
 def values(minf):
     big_s = 'x' * (minf + 3)
-    return [0, 5, -7, 2 ** 62, 1.5, 'v', 'w' * max(0, minf - 1), big_s, 'y' * minf + '\r\n', b'b', b'B' * (minf + 2),
+    return [0, 5, -7, 2 ** 62, 'v', 'w' * max(0, minf - 1), big_s, 'y' * minf + '\r\n', b'b', b'B' * (minf + 2),
             (1, 'two'), None, [1, 2, 3], {'k': 'v' * (minf + 5)}, Stream(b'stream-data' * 3), Stream(b'')]
 
 
